@@ -76,12 +76,14 @@ func modelCheck(c *run.Ctx, m mcRun, timeout time.Duration) error {
 func dumpAndReplay(c *run.Ctx, m mcRun, timeout time.Duration) error {
 	cfg := autogradCfg(c, fmt.Sprintf("gen_%s_%d_%d.cfg", m.module, m.nodes, m.bps), m.nodes, m.bps, m.reset, m.scribble, false, true, "")
 	c.Logf("TLC dumping transitions of %s: MaxNodes=%d MaxBP=%d reset=%v", m.module, m.nodes, m.bps, m.reset)
-	res, err := c.MustTLC(run.TLCOpts{Module: m.module, Config: cfg, Workers: 1, HeapMB: 8000, Timeout: timeout, Tag: "gen-" + m.module})
+	dumpFile := filepath.Join(c.Work, fmt.Sprintf("dump-%s-%d-%d.txt", m.module, m.nodes, m.bps))
+	res, err := c.MustTLC(run.TLCOpts{Module: m.module, Config: cfg, Workers: 1, HeapMB: 8000, Timeout: timeout, Tag: "gen-" + m.module, StdoutFile: dumpFile})
 	if err != nil {
 		return err
 	}
 	c.Logf("replaying the dumped behaviours on the real library")
-	n, err := c.ReplayDump(res.Out)
+	n, err := c.ReplayDumpFile(dumpFile)
+	os.Remove(dumpFile)
 	if err != nil {
 		return err
 	}
